@@ -56,6 +56,7 @@ PayS == Lit("p" \o ToString(cnt.w), 2)
 DoWrite(id) ==
   /\ Can
   /\ \/ /\ Mode(id) = "hs" /\ \E b \in {BIG, 0} : HsWrite(id, PayS, b, TRUE)
+     \/ /\ Mode(id) = "hs" /\ HsWrite(id, Lit("big", MAXMSG), BIG, TRUE)      \* oversized: refused, nothing moves
      \/ /\ Mode(id) = "tr" /\ \E b \in {BIG, 0} : TrWrite(id, PayS, b)
      \/ /\ Mode(id) = "sl" /\ \E b \in {BIG, 0} : SlWrite(id, NLo(0), PayS, b)
   /\ FailOk
